@@ -21,6 +21,24 @@ def interleavings(run):
     if r2.violated != "Isolation":
         raise vlib.Infra("Interleave (shared staging) was not refuted: the model cannot see the defect it is for")
     run.add_tlc("Interleave/shared (expected counterexample)", r2)
+    # TLAPS: Isolation for private staging with ANY number of deliveries (TLC fixes 4)
+    import shutil
+    import subprocess
+    import time
+    wd = os.path.join(vlib.scratch(), "tlaps-%d" % os.getpid())
+    os.makedirs(wd, exist_ok=True)
+    shutil.copy(os.path.join(vlib.SPEC, "InterleaveProof.tla"), wd)
+    t0 = time.time()
+    try:
+        pt = subprocess.run(["tlapm", "--threads", "8", "InterleaveProof.tla"], cwd=wd, capture_output=True, text=True, timeout=900)
+    except subprocess.TimeoutExpired:
+        raise vlib.Infra("tlapm timed out on InterleaveProof")
+    m = __import__("re").search(r"All (\d+) obligations proved", pt.stdout + pt.stderr)
+    if not m:
+        raise vlib.Infra("TLAPS did not prove InterleaveProof: %s" % (pt.stdout + pt.stderr)[-800:])
+    run.cov["tlaps_proof"] = {"module": "InterleaveProof", "theorem": "Spec => []Isolation (private staging, NChunks arbitrary)",
+                              "obligations_proved": int(m.group(1)), "wall_s": round(time.time() - t0, 1)}
+    shutil.rmtree(wd, ignore_errors=True)
     return r.printed
 
 
